@@ -12,7 +12,7 @@ func init() {
 		Rules: []ruleFn{ruleActionBindingsOwn("C12"), ruleLocksetStates, ruleStateSections, ruleAtomSection, rulePrivPair, ruleCtxShare, ruleLockOrder("C12"), ruleSharedWrite, ruleCacheInv, ruleCacheEvict("C12"), ruleLockReentry("C12"), rulePrivLocal("C12"), ruleCtxPerGoroutine("C12"), ruleCacheGen("C12"), ruleMarshalPure("C12"), ruleHookAtomic, rulePurgeRecheck("C12")},
 		Thorough: []ruleFn{ruleLocksetDeep},
 	})
-	register(&propertySpec{ID: "C11", Explain: "Static lock-set analysis of the state that different locations share (see rule docs); decides the data-race-freedom precondition of C11 only.", Rules: []ruleFn{ruleLocksetSystem, ruleCtxPerRequest, ruleAtomicOnly, ruleLockOrder("C11"), ruleAppendClobber("C11"), ruleTimelineOrder("C11"), rulePendingPair("C11"), ruleSharedToJS, ruleCtxPerGoroutine("C11"), ruleCronKeyInj("C11"), ruleMemoKey("C11")}})
+	register(&propertySpec{ID: "C11", Explain: "Static lock-set analysis of the state that different locations share (see rule docs); decides the data-race-freedom precondition of C11 only.", Rules: []ruleFn{ruleGlobals, ruleLocksetSystem, ruleCtxPerRequest, ruleAtomicOnly, ruleLockOrder("C11"), ruleAppendClobber("C11"), ruleTimelineOrder("C11"), rulePendingPair("C11"), ruleSharedToJS, ruleCtxPerGoroutine("C11"), ruleCronKeyInj("C11"), ruleMemoKey("C11")}})
 	register(&propertySpec{ID: "C16", Explain: "Static lock-set, pairing, transaction-scope and key-provenance rules for the in-memory cron and the Bolt-backed crolt service. Does not decide exactly-once firing, no-fire-after-Rem while a recurring job is running, or restart consistency (history properties).", Rules: []ruleFn{ruleJobFlagLocked, ruleLocksetCron, ruleCronUniq, ruleCronDue, ruleTxScope("crolt"), ruleTxAtomic, ruleTxSibling, ruleKeyFixedWidth, rulePartitionAgree, ruleAppendClobber("C16"), ruleBoltErrIn("crolt", 4), ruleCronRearm("C16"), ruleTimelineOrder("C16"), ruleTimeParseArgs("C16"), ruleCroltURL("C16"), ruleAtUTC, ruleCronNextZero("C16"), ruleTimeIdxOrder, ruleCroltEscape("C16"), ruleCronInflight("C16"), ruleJitterNonneg, ruleCroltStatus("C16"), ruleCronLimitFirst("C16"), ruleLockSend("C16"), ruleCronStartArms, ruleCroltTidOwn, ruleUnmarshalFresh, ruleLoopvarGo("C16")}})
 	register(&propertySpec{ID: "C20", Explain: "Static gate / lock-set / provenance rules for limits.", Rules: []ruleFn{ruleGateCap, ruleLocksetBreakers, ruleBrkAtomic, ruleBrkSlide, ruleBrkAttempted, ruleThrottle, ruleHTTPBreaker, ruleCtorParam("C20"), ruleBrkWindow, ruleBrkAdjust, ruleBrkInterval("C20")}})
 }
